@@ -118,7 +118,7 @@ def start_function_monitor():
 
     def on_start(code, off):
         fn = code.co_filename
-        if fn.startswith(pkg):
+        if fn.startswith(pkg) and code.co_flags & 0x2:     # functions only (no module / class bodies)
             _funcs_seen.add("%s:%s" % (os.path.relpath(fn, REPO_DIR), code.co_qualname))
         return mon.DISABLE
 
